@@ -153,6 +153,15 @@ pub enum Op {
         input: String,
         repl: String,
     },
+    /// F10b: register a call that is made from a thread-local destructor when this caller
+    /// thread exits (fresh-thread runs; on long-lived threads the call is made at once). The
+    /// library's own thread-local storage may already be gone at that moment.
+    AtExitCall {
+        slot: usize,
+        method: Method,
+        input: String,
+        repl: String,
+    },
     /// F11: simulated time passes (no real sleeping) before the next operation.
     ClockAdvance { ms: u64 },
     /// Legal but unusual: `Debug`-format the object (and the thread's live iterators) in
@@ -236,6 +245,10 @@ pub struct RunSpec {
     pub late: Option<Vec<Option<usize>>>,
     #[serde(default)]
     pub jumps: Vec<ClockJump>,
+    /// Touch the harness's at-exit list before the first library call of each thread, so
+    /// that the library's thread-locals are registered later and destroyed earlier.
+    #[serde(default)]
+    pub exit_list_first: bool,
 }
 
 impl RunSpec {
@@ -317,6 +330,8 @@ pub struct RunRecord {
     pub clock_jumps: u64,
     #[serde(default)]
     pub panicking_calls: u64,
+    #[serde(default)]
+    pub at_exit_calls: u64,
     /// Dense build only: basic-block edges executed inside library calls, and how many of
     /// them were offered to the scheduler as preemption points.
     #[serde(default)]
